@@ -411,7 +411,7 @@ def judge_c03_group(cases, lab):
             absent = sorted(key for key in K if not _has(ob.o, key))
             if absent:
                 res.bad("present-only", "keys() reports absent keys %s" % absent)
-            elif not a["swallows"]:
+            else:
                 if a["keys"]["ok"] and keyset(a["keys"]["ks"]) == K:
                     o_r = dec(a["restrict"])  # computed by the specification
                 else:
@@ -552,6 +552,12 @@ def _orders(n, seedstr):
         yield sh
 
 
+def _blind_tag(cases):
+    """A history on a graph in which some evaluation recovers from a failure (the specification's KeyBlind):
+    what labrea keys the entry on cannot be sufficient there -- the listed finding class `recovered-failure`."""
+    return "[recovered-failure] " if any(c["a"].get("keyblind") for c in cases) else ""
+
+
 def judge_c01_group(cases, lab):
     """Every dictionary of the graph evaluated in several orders on ONE long-lived instance;
     each outcome must equal that of a freshly built copy (and the specification's value)."""
@@ -577,8 +583,8 @@ def judge_c01_group(cases, lab):
             res = out[id(cases[i])]
             res.nontrivial = res.nontrivial or bool(hist)
             if not same_outcome(got, ref):
-                res.bad("transparent", "after evaluating %s on the same graph, evaluate gives %s; a fresh copy gives %s" % (
-                    hist[-4:], observe.describe(got), observe.describe(ref)))
+                res.bad("transparent", "%safter evaluating %s on the same graph, evaluate gives %s; a fresh copy gives %s" % (
+                    _blind_tag(cases), hist[-4:], observe.describe(got), observe.describe(ref)))
             hist.append(o)
     # derivatives of one dataset share its cache: siblings with different pre-set / default values of
     # a key the dataset mentions, evaluated one after the other, each against a fresh graph
@@ -868,7 +874,7 @@ def judge_c12_group(cases, lab):
                 o, ref = fresh[i]
                 got = observe.call(lambda: g.root.evaluate(copy.deepcopy(o)), lab, raised=g.raised)
                 if not same_outcome(got, ref):
-                    tag = "[coalesce-swallow] " if any(c["a"]["swallows"] for c in cases) else ""
+                    tag = "[coalesce-swallow] " if any(c["a"]["swallows"] for c in cases) else _blind_tag(cases)
                     out[id(cases[i])].bad("later-evaluation[%s]" % kind, "%safter %s on the same graph evaluate gives %s; a fresh copy gives %s" % (
                         tag, hist[-4:], observe.describe(got), observe.describe(ref)))
                 hist.append(o)
@@ -1326,6 +1332,9 @@ def judge_c20_group(cases, lab):
     out = {id(c): Result() for c in cases}
     if not cases or not any(nd["k"] in ("ds", "dsof") for nd in cases[0]["nodes"]):
         return [(c, out[id(c)]) for c in cases]
+    if any(c["a"].get("keyblind") for c in cases):
+        # staleness after a recovered failure (finding class recovered-failure) is C01's business, not pickling's
+        return [(c, out[id(c)]) for c in cases]
     style = {"picklable": True}
     dicts = [dec(c["a"]["o"]) for c in cases]
     ref = []
@@ -1399,6 +1408,47 @@ def c20_fixed_probes(prop, tier, sc, rep):
                     else {"probe": name, "error": type(e).__name__}
                 rep.violation(sig, {"kind": "pickle-probe", "name": name, "proto": proto, "error": "%s: %s" % (type(e).__name__, e)})
     return 0, 0, n, 2
+
+
+def recovered_failure_probes(prop, tier, sc, rep):
+    """The listed finding class `recovered-failure`, demonstrated on hand-written real objects in every run
+    (C03: keys() not sufficient; C01: a cached consumer serves a stale value).  Each probe that still
+    misbehaves is reported under the class signature; a repaired library makes them silent."""
+    from .common import import_labrea
+
+    lab = import_labrea()
+
+    def switch_probe():
+        A = lab.Option("A")
+        B = lab.Option("B", default=A, domain=["x", 1])
+        return lab.Switch(B, {1: lab.Value("branch")}, A), {"A": 1, "B": 2}, {"A": 1}
+
+    def coalesce_probe():
+        m1 = lab.Option("A", default=9, domain=[1, 9])
+        return lab.Coalesce(m1, lab.Value(5)), {"A": 2}, {}
+
+    n = 0
+    for name, mk in (("switch-default-after-out-of-domain-dispatch", switch_probe), ("coalesce-skips-out-of-domain-member", coalesce_probe)):
+        n += 1
+        x, o1, o2 = mk()
+        if prop == "C03":
+            K = set(x.keys(copy.deepcopy(o1)))
+            full = observe.call(lambda: x.evaluate(copy.deepcopy(o1)), lab)
+            restr = observe.call(lambda: x.evaluate(restrict(o1, K)), lab)
+            if not same_outcome(full, restr):
+                rep.violation({"class": "recovered-failure-keys"},
+                              {"kind": "probe", "name": name, "detail": "keys(%s) = %s; evaluate gives %s on the full and %s on the restricted options" % (
+                                  o1, sorted(K), observe.describe(full), observe.describe(restr))})
+        else:
+            c = lab.cached(x)
+            observe.call(lambda: c.evaluate(copy.deepcopy(o1)), lab)
+            got = observe.call(lambda: c.evaluate(copy.deepcopy(o2)), lab)
+            fresh = observe.call(lambda: lab.cached(mk()[0]).evaluate(copy.deepcopy(o2)), lab)
+            if not same_outcome(got, fresh):
+                rep.violation({"class": "recovered-failure-stale-entry"},
+                              {"kind": "probe", "name": name, "detail": "after %s the cached graph gives %s for %s; a fresh one %s" % (
+                                  o1, observe.describe(got), o2, observe.describe(fresh))})
+    return 0, 0, n, n
 
 
 _C03_PENDING = []
@@ -1745,6 +1795,10 @@ def signature(prop, clause, case, detail=""):
     every other violation is identified by its clause, graph and dictionary."""
     if detail.startswith("[coalesce-swallow] ") and clause.startswith("later-evaluation"):
         return {"class": "coalesce-swallow-stale-entry"}
+    if detail.startswith("[recovered-failure] ") and (clause.startswith("later-evaluation") or clause == "transparent"):
+        return {"class": "recovered-failure-stale-entry"}
+    if prop == "C03" and clause in ("sufficient-eval", "sufficient-keys") and (case["a"].get("keyblind") or case["a"].get("swallows")):
+        return {"class": "recovered-failure-keys"}
     if clause in ("agree", "sufficient-eval", "sufficient-keys") and any(
             nd["k"] == "ds" and "ep" in nd.get("effs", []) for nd in case["nodes"]):
         # the dataset has an effect whose parameter is an option: labrea's keys() does not report it
